@@ -13,6 +13,13 @@ def main():
     summ = coqbuild.regenerate()
     if summ.get("errors"):
         print("translator problems:", summ["errors"])
+    try:   # Gen/Footprint.v (C20) has its own extractor
+        from . import c20
+        fs = c20.regenerate_footprint()
+        if fs.get("errors"):
+            print("footprint extractor problems:", fs["errors"])
+    except ImportError:
+        pass
     built, log, secs = coqbuild.make()
     bad = [t for t, ok in built.items() if not ok]
     print("coq: %d targets built in %.0fs, %d failed" % (len(built) - len(bad), secs, len(bad)))
